@@ -193,10 +193,13 @@ func (m *monC10) OnStep(r *Runner, st *Step) {
 	// each of its own delegations. Where a validator's exchange rate is not 1 (after a real slash) that value
 	// is fractional, so native stake is mis-measured by up to one base unit per such delegation, and every
 	// target inherits that error multiplied by the sum of started reward weights.
+	// (the measurement is taken before the adjustments, so delegations that existed when end-of-block began count too)
 	k := int64(0)
 	for _, v := range post.StValOrder {
 		sv := post.StVals[v]
-		if _, has := post.ModDels[v]; has && sv.IsBonded() && !sv.DelegatorShares.Equal(sdkmath.LegacyNewDecFromInt(sv.Tokens)) {
+		_, hasPost := post.ModDels[v]
+		_, hasPre := pre.ModDels[v]
+		if (hasPost || hasPre) && !sv.DelegatorShares.Equal(sdkmath.LegacyNewDecFromInt(sv.Tokens)) {
 			k++
 		}
 	}
